@@ -35,7 +35,10 @@ package internal
 //@   modifies key[*]
 //@   ensures [C10:source-wiped] forall i int :: 0 <= i && i < len(key) ==> key[i] == 0
 //@   ensures (err == nil) == (result != nil)
-//@   ensures [C02:key-carries-row-stamp] err == nil ==> fresh(result) && result.created == created && result.secret != nil
+//@   ensures [C02:key-carries-row-stamp] err == nil ==> fresh(result) && result.created == created && result.secret != nil && live(result.secret) && fresh(result.secret)
+//@   modifies live
+//@   ensures [C09:only-the-key-s-secret-is-new] forall s securememory.Secret :: live(s) && !old(live(s)) ==> err == nil && s == result.secret
+//@   ensures [C09:nothing-released] forall s securememory.Secret :: old(live(s)) ==> live(s)
 
 // ---- Revokable: observers without heap effect ----
 
@@ -43,3 +46,21 @@ package internal
 //@   pure
 //@ iface Revokable.Revoked
 //@   pure
+
+// ---- C09: secrets are created by exactly two constructors and released by Close ----
+
+//@ func GenerateKey
+//@   facet C09, C03
+//@   requires factory != nil
+//@   modifies live
+//@   ensures (err == nil) == (result != nil)
+//@   ensures err == nil ==> fresh(result) && result.created == created && result.secret != nil && live(result.secret) && fresh(result.secret)
+//@   ensures [C09:only-the-key-s-secret-is-new] forall s securememory.Secret :: live(s) && !old(live(s)) ==> err == nil && s == result.secret
+//@   ensures [C09:nothing-released] forall s securememory.Secret :: old(live(s)) ==> live(s)
+
+// Close is idempotent through sync.Once: once it has returned, the key's secret has been closed.
+//@ func (*CryptoKey).Close
+//@   facet C09
+//@   requires k != nil
+//@   modifies live(k.secret)
+//@   ghost ensures k.secret != nil ==> !live(k.secret)
